@@ -124,6 +124,7 @@ type h struct {
 	s       sets.Set[int]
 	m       mask
 	touched bool // an operation has been applied: the constructors are offered in the initial state only
+	isNil   bool // x.s is the nil zero value of maps.Set: nothing may be inserted into it
 }
 
 // sliceOf decodes a slice over {0,1,2} of length 1..3 (digits 1..3 base 4, duplicates included).
@@ -158,10 +159,18 @@ func (x *h) Ops() []seqmc.Op {
 		for m := 1; m < 1<<U; m++ {
 			ops = append(ops, seqmc.Op{Name: "NewSetFromKeys", A: m}, seqmc.Op{Name: "NewSetFromValues", A: m})
 		}
+		if x.k == kMaps {
+			// the zero value of maps.Set is a nil map: a valid empty set for everything that does not
+			// insert into it (Clone of it must be a usable set)
+			ops = append(ops, seqmc.Op{Name: "ZeroValue"})
+		}
 	}
 	ops = append(ops, seqmc.Op{Name: "Clone"})
 	for v := 0; v < U; v++ {
-		ops = append(ops, seqmc.Op{Name: "Add", A: v}, seqmc.Op{Name: "Remove", A: v})
+		if !x.isNil {
+			ops = append(ops, seqmc.Op{Name: "Add", A: v})
+		}
+		ops = append(ops, seqmc.Op{Name: "Remove", A: v})
 	}
 	if x.k == kSync {
 		// reads that miss drive the promotion of the dirty map; Len/Slice promote at once
@@ -209,8 +218,12 @@ func (x *h) Apply(op seqmc.Op) *seqmc.Fail {
 		default:
 			x.s = sync2.NewSetFromValues(mp)
 		}
+	case "ZeroValue":
+		var z maps.Set[int]
+		x.s, x.m, x.isNil = z, 0, true
 	case "Clone":
 		x.s = x.s.Clone() // the search continues on the clone (its layout is its own)
+		x.isNil = false
 	case "Add":
 		got, want := x.s.Add(op.A), !x.m.has(op.A)
 		x.m |= 1 << uint(op.A)
@@ -237,7 +250,7 @@ func (x *h) Apply(op seqmc.Op) *seqmc.Fail {
 
 // Key: the concrete layout plus the membership (unsafe.Pointer fields are opaque identities
 // to the walker, so "live" and "expunged" entries are told apart by the membership).
-func (x *h) Key() string { return fmt.Sprintf("%s|%d", fp.Of(x.s), x.m) }
+func (x *h) Key() string { return fmt.Sprintf("%s|%d|%v", fp.Of(x.s), x.m, x.isNil) }
 
 func (x *h) Observe() *seqmc.Fail {
 	if sig, msg := observe(x.s, x.m); sig != "" {
@@ -293,7 +306,7 @@ func (x *h) Observe() *seqmc.Fail {
 		}
 	}
 	c2 := x.s.Clone()
-	for v := 0; v < U; v++ {
+	for v := 0; v < U && !x.isNil; v++ {
 		x.s.Add(v)
 	}
 	for v := 0; v < U; v++ {
@@ -319,6 +332,12 @@ func (o operand) build() sets.Set[int] {
 		x.Apply(op)
 	}
 	return x.s
+}
+
+// isNilSet: the nil zero value of maps.Set (valid as an empty set, but nothing can be inserted into it).
+func isNilSet(s sets.Set[int]) bool {
+	m, ok := s.(maps.Set[int])
+	return ok && m == nil
 }
 
 func (o operand) String() string {
@@ -395,8 +414,12 @@ func checkPair(a, b operand, same bool) {
 		A, B = mk()
 		res = op.f(A, B)
 		for v := 0; v < U; v++ {
-			A.Add(v)
-			B.Add(v)
+			if !isNilSet(A) {
+				A.Add(v)
+			}
+			if !isNilSet(B) {
+				B.Add(v)
+			}
 		}
 		for v := 0; v < U; v++ {
 			A.Remove(v)
@@ -406,8 +429,8 @@ func checkPair(a, b operand, same bool) {
 			fail(op.name+"|shares-state", "mutating the operands changed %s's result: %s", op.name, msg)
 		}
 	}
-	// AddSet / RemoveSet
-	{
+	// AddSet / RemoveSet (nothing can be inserted into the nil zero value of maps.Set)
+	if A0, _ := mk(); !isNilSet(A0) {
 		A, B := mk()
 		e.Call()
 		n := A.AddSet(B)
